@@ -21,6 +21,10 @@ struct Case
 {
   std::vector<ESpec> stream; std::vector<int> cuts; /* cut positions (event index) ascending, may repeat => empty files */ std::vector<int> ws_files; /* files that get only whitespace */
   int start = 0, max = 0; std::vector<int> ops; /* 0 = has_next, 1 = load */ bool zero_time = false;
+  // how the reader object under test comes to its configuration: 0 = constructor with the configuration; 1 = default constructor + set_configuration;
+  // 2 = a USED object: first configured with another window of the same files (pre_start, pre_max), pre_reads calls made on it, then
+  // reset_configuration() + set_configuration(the window under test) - it must behave like a new reader
+  int how = 0, pre_start = 0, pre_max = 0, pre_reads = 0;
 };
 
 static std::string fmt15(double x) { std::ostringstream o; o.precision(15); o << x; return o.str(); }
@@ -62,7 +66,7 @@ static std::string case_json(const Case & c)
     o += "]}";
   }
   auto ivec = [](const std::vector<int> & v) { std::string s = "["; for (size_t i = 0; i < v.size(); i++) { if (i) s += ","; s += std::to_string(v[i]); } return s + "]"; };
-  o += "],\"cuts\":" + ivec(c.cuts) + ",\"ws_files\":" + ivec(c.ws_files) + ",\"start\":" + std::to_string(c.start) + ",\"max\":" + std::to_string(c.max) + ",\"ops\":" + ivec(c.ops) + ",\"zero_time\":" + (c.zero_time ? "true" : "false") + "}";
+  o += "],\"cuts\":" + ivec(c.cuts) + ",\"ws_files\":" + ivec(c.ws_files) + ",\"start\":" + std::to_string(c.start) + ",\"max\":" + std::to_string(c.max) + ",\"ops\":" + ivec(c.ops) + ",\"zero_time\":" + (c.zero_time ? "true" : "false") + ",\"how\":" + std::to_string(c.how) + ",\"pre_start\":" + std::to_string(c.pre_start) + ",\"pre_max\":" + std::to_string(c.pre_max) + ",\"pre_reads\":" + std::to_string(c.pre_reads) + "}";
   return o;
 }
 static Case case_from(const JV & j)
@@ -72,7 +76,8 @@ static Case case_from(const JV & j)
   for (auto & e : j.at("cuts").arr) c.cuts.push_back((int)e.num);
   for (auto & e : j.at("ws_files").arr) c.ws_files.push_back((int)e.num);
   for (auto & e : j.at("ops").arr) c.ops.push_back((int)e.num);
-  c.start = (int)j.n("start", 0); c.max = (int)j.n("max", 0); c.zero_time = j.has("zero_time") && j.at("zero_time").b; return c;
+  c.start = (int)j.n("start", 0); c.max = (int)j.n("max", 0); c.zero_time = j.has("zero_time") && j.at("zero_time").b;
+  c.how = (int)j.n("how", 0); c.pre_start = (int)j.n("pre_start", 0); c.pre_max = (int)j.n("pre_max", 0); c.pre_reads = (int)j.n("pre_reads", 0); return c;
 }
 
 struct Res { bool ok = true; std::string cls, msg; std::string shape; bool nontrivial = false; };
@@ -100,7 +105,22 @@ static Res run_case(const Case & c, const std::string & dir)
   // ---- drive the reader
   bxdecay0::event_reader::config_type cfg; cfg.event_files = files; cfg.start_event = c.start; cfg.max_nb_events = c.max; cfg.zero_event_time = c.zero_time;
   std::unique_ptr<bxdecay0::event_reader> rd;
-  try { rd.reset(new bxdecay0::event_reader(cfg, 0)); } catch (std::exception & e) { return fail("configure-throws", std::string("set_configuration raised: ") + e.what()); }
+  try {
+    if (c.how == 0) rd.reset(new bxdecay0::event_reader(cfg, 0));
+    else {
+      rd.reset(new bxdecay0::event_reader(0));
+      if (c.how == 2) {
+        bxdecay0::event_reader::config_type pre = cfg; pre.start_event = c.pre_start; pre.max_nb_events = c.pre_max; pre.zero_event_time = !c.zero_time;
+        rd->set_configuration(pre);
+        try { for (int k = 0; k < c.pre_reads; k++) { if (!rd->has_next_event()) break; bxdecay0::event ev; if (k % 3 != 2) rd->load_next_event(ev); } } catch (std::exception &) {}   // the earlier use is not judged here
+        rd->reset_configuration();
+        if (rd->is_configured()) return fail("reset-keeps-configured", "is_configured() is still true after reset_configuration()");
+      }
+      rd->set_configuration(cfg);
+    }
+  } catch (std::exception & e) { return fail("configure-throws", std::string("set_configuration raised: ") + e.what()); }
+  if (!rd->is_configured()) return fail("not-configured", "is_configured() is false after the configuration was set");
+  r.shape += c.how == 0 ? "/ctor" : (c.how == 1 ? "/set" : "/reused");
   int delivered = 0, expect_total = hi - lo;
   std::vector<int> ops = c.ops; // then drain: H L H L ... until model says done, plus two extra has_next
   for (int k = 0; k < 2 * (expect_total + 2); k++) ops.push_back(k % 2);
@@ -191,6 +211,8 @@ int main(int argc, char ** argv)
       c.max = mk == 0 ? 0 : (mk == 1 ? std::max(0, n - c.start) : *rc::gen::resize(100, rc::gen::inRange(0, n + 3)));
       c.ops = *rc::gen::resize(30, rc::gen::container<std::vector<int>>(rc::gen::resize(100, rc::gen::inRange(0, 2))));
       c.zero_time = *rc::gen::resize(100, rc::gen::inRange(0, 5)) == 0;
+      c.how = *rc::gen::resize(100, rc::gen::inRange(0, 3));
+      if (c.how == 2) { c.pre_start = *rc::gen::resize(100, rc::gen::inRange(0, n + 2)); c.pre_max = *rc::gen::resize(100, rc::gen::inRange(0, n + 2)); c.pre_reads = *rc::gen::resize(100, rc::gen::inRange(0, n + 3)); }
       Res r = run_case(c, dir);
       rep.evaluations++;
       if (r.ok) { rep.label(r.shape); if (r.nontrivial) rep.nt(r.shape + "|" + std::to_string(std::min(n, 8))); }
